@@ -299,6 +299,68 @@ def _known_hosts(tree):
     return dict(prefix=prefix, sep=sep, digest=digest, lsep=lsep, parts=parts)
 
 
+MUTATORS = {"pop", "popitem", "update", "setdefault", "append", "extend", "insert", "remove", "clear", "add", "discard",
+            "__setitem__", "__delitem__", "sort", "reverse"}
+
+
+def _root(node):
+    while isinstance(node, (ast.Attribute, ast.Subscript)):
+        node = node.value
+    return node.id if isinstance(node, ast.Name) else None
+
+
+def _lookup_writes(tree, cls_name, entry):
+    """every store that outlives the call on the call graph below `cls.entry`: assignments / deletions / mutating
+    method calls whose target is rooted at self, cls, a class or another module-level name, `global` / `nonlocal`
+    declarations, setattr(self, ...), and caching decorators.  [] = the lookup is a pure function of the object."""
+    cls = _cls(tree, cls_name)
+    module_names = {n.name for n in tree.body if isinstance(n, (ast.ClassDef, ast.FunctionDef))}
+    for n in tree.body:
+        if isinstance(n, (ast.Assign, ast.AnnAssign)):
+            for t in (n.targets if isinstance(n, ast.Assign) else [n.target]):
+                if isinstance(t, ast.Name):
+                    module_names.add(t.id)
+    shared = {"self", "cls"} | module_names
+    methods = {n.name: n for n in cls.body if isinstance(n, ast.FunctionDef)}
+    todo, seen, out = [entry], set(), []
+    while todo:
+        m = todo.pop()
+        if m in seen or m not in methods:
+            continue
+        seen.add(m)
+        fn = methods[m]
+        for d in fn.decorator_list:
+            txt = ast.unparse(d)
+            if "cache" in txt.lower() or "memo" in txt.lower():
+                out.append(f"{m}:@{txt}")
+        for n in ast.walk(fn):
+            if isinstance(n, ast.Call) and isinstance(n.func, ast.Attribute) and getattr(n.func.value, "id", None) == "self":
+                todo.append(n.func.attr)
+            targets = []
+            if isinstance(n, ast.Assign):
+                targets = list(n.targets)
+            elif isinstance(n, (ast.AugAssign, ast.AnnAssign)):
+                targets = [n.target]
+            elif isinstance(n, ast.Delete):
+                targets = list(n.targets)
+            elif isinstance(n, (ast.Global, ast.Nonlocal)):
+                out += [f"{m}:global {x}" for x in n.names]
+            flat = []
+            for t in targets:
+                flat += list(t.elts) if isinstance(t, (ast.Tuple, ast.List)) else [t]
+            for t in flat:
+                if isinstance(t, (ast.Attribute, ast.Subscript)) and _root(t) in shared:
+                    out.append(f"{m}:{ast.unparse(t)}")
+            if isinstance(n, ast.Call):
+                f = n.func
+                if isinstance(f, ast.Attribute) and f.attr in MUTATORS and isinstance(f.value, (ast.Attribute, ast.Subscript)) \
+                        and _root(f.value) in shared:
+                    out.append(f"{m}:{ast.unparse(f)}()")
+                if isinstance(f, ast.Name) and f.id in ("setattr", "delattr") and n.args and _root(n.args[0]) in shared:
+                    out.append(f"{m}:{ast.unparse(n)}")
+    return sorted(set(out))
+
+
 def generate():
     tree = _parse(REL)
     attrs = _host_attrs(tree)
@@ -316,6 +378,8 @@ def generate():
         raise TranslateError(f"catch-all key literals differ: {sorted(stars)}")
     star = stars.pop()
     kh = _known_hosts(tree)
+    cfg_writes = _lookup_writes(tree, "SSHConfig", "lookup")
+    kh_writes = _lookup_writes(tree, "SSHKnownHosts", "lookup")
     DATA.clear()
     DATA.update(host_attrs=attrs, defaults=dflt, keywords=kws, fuzzy=fz, star=star, known_hosts=kh)
     b = HEADER.format(src=REL)
@@ -344,5 +408,8 @@ def generate():
     b += f"def hashedPrefix : Str := {chars(kh['prefix'])}\ndef hashSep : Char := {char(kh['sep'])}\n"
     b += f"def hashedParts : Nat := {kh['parts']}\ndef listSep : Char := {char(kh['lsep'])}\n"
     b += f"def hmacDigest : String := {lstr(kh['digest'])}\n"
+    b += "/-- stores that outlive the call on the call graph below SSHConfig.lookup / SSHKnownHosts.lookup (AST) -/\n"
+    b += f"def cfgLookupWrites : List String := [{', '.join(lstr(x) for x in cfg_writes)}]\n"
+    b += f"def khLookupWrites : List String := [{', '.join(lstr(x) for x in kh_writes)}]\n"
     b += "end Scrapli.Gen.SSHConfig\n"
     return [(OUT, b)]
